@@ -36,7 +36,8 @@ Definition good (m0 : bytes -> option bytes) (d : dir) : Prop :=
 
 Lemma good_recovers m0 d : good m0 d -> recovers_to d m0.
 Proof.
-  intros (Hs & Hn & Hh & Hv) clk. destruct (recovers_log d Hs Hn Hh clk) as (s' & t & Ho & HI & Ha). exists s', t.
+  intros (Hs & Hn & Hh & Hv). split; [exact Hh|]. intros clk. destruct (recovers_log d Hs Hn Hh) as [_ Hrl].
+  destruct (Hrl clk) as (s' & t & Ho & HI & Ha). exists s', t.
   split; [exact Ho|]. split; [exact HI|]. intros k. rewrite Ha. apply Hv.
 Qed.
 
